@@ -204,6 +204,22 @@ def check_replace(s, stats, case):
     r = s.replace(sources=newsrc, upgraded_return_annotation=mark)
     if r.sources is not newsrc or r.upgraded_return_annotation is not mark or list(r.parameters.values()) != ps:
         stats.fail('C14/replace/signature-override', case, '%s.replace(sources=, upgraded_return_annotation=) did not take the overrides' % (s,))
+    # overrides that are false in a boolean context are overrides too
+    import collections
+    for empty in ({}, collections.OrderedDict()):
+        r = s.replace(sources=empty)
+        if r.sources is not empty:
+            stats.fail('C14/replace/signature-override-empty', case, '%s.replace(sources=%r) kept the old sources' % (s, empty))
+    r = s.replace(parameters=[])
+    if list(r.parameters.values()) != [] or r.sources is not s.sources:
+        stats.fail('C14/replace/signature-override-empty', case, '%s.replace(parameters=[]) -> %s' % (s, r))
+    r = s.replace(upgraded_return_annotation=signatures.EmptyAnnotation) if hasattr(signatures, 'EmptyAnnotation') else None
+    for q in ps:
+        for kw in ({'sources': []}, {'source_depths': {}}):
+            r = q.replace(**kw)
+            k, v = list(kw.items())[0]
+            if getattr(r, k) is not v:
+                stats.fail('C14/replace/parameter-override-empty', dict(case, parameter=q.name), 'Parameter %s .replace(%s=%r) kept the old value' % (q, k, v))
     for q in ps:
         r = q.replace(name=q.name + '_')
         if type(r) is not type(q) or r.upgraded_annotation is not q.upgraded_annotation or r.sources is not q.sources or r.source_depths is not q.source_depths:
